@@ -220,7 +220,7 @@ PROPS["C15"] = {
 PROPS["C14"] = {
     "lean": ["SioVerif.Props.C14"],
     "components": ["timed:TestHeartbeat"],
-    "facts": ["chanPong", "chanPing", "eioDefaultPingIntervalNs", "eioDefaultPingTimeoutNs"],
+    "facts": ["chanPong", "chanPing", "eioDefaultPingIntervalNs", "eioDefaultPingTimeoutNs", "eioCloseReportedFirst"],
     "rule": "virtual time (synctest). Unit: the real Engine.IO server socket and client socket over a fake transport, pingInterval x pingTimeout in {1s,2s,3s}^2, a scripted "
             "peer that answers with a random latency below the timeout until a silence starting at every 500 ms (thorough 100 ms) grid point over three periods, plus "
             "unsolicited PONGs; PING instants and the close instant are compared with the model. System: real sio server and client stacks on the in-memory network, "
